@@ -43,13 +43,13 @@ class _IntCodec(object):
 class _Policy(object):
     """E-AES as a stub: which columns are encrypted, their CQL type, and an abstract encrypt/decrypt pair over bytes"""
     def __init__(self, vc, encrypted_names):
-        self.vc, self.names, self.calls, self.table = vc, set(encrypted_names), [], []
+        self.vc, self.names, self.calls, self.table, self.types, self.owner = vc, set(encrypted_names), [], [], {}, {}
 
     def contains_column(self, cd):
         return cd.col in self.names
 
     def column_type(self, cd):
-        return _IntCodec
+        return self.types.get(cd.col, _IntCodec)
 
     def _bytes(self, what, b):
         self.calls.append((what, b))
@@ -72,6 +72,7 @@ class _Policy(object):
 
     def decrypt(self, cd, b):
         ct = self._bytes('decrypt', b)
+        self.decrypted_under = getattr(self, 'decrypted_under', []) + [(getattr(cd, 'col', None), ct)]
         for c, p in self.table:
             if c.t.eq(ct.t) or z3.simplify(c.t == ct.t).eq(z3.BoolVal(True)):
                 return p
@@ -198,3 +199,38 @@ def real_policy(tier, seed):
 
 real_policy.__name__ = 'real_aes_policy_round_trip'
 BOUNDED = [real_policy]
+
+
+@harness('C39', 'rows-two-encrypted-columns', functions=[PR + 'ResultMessage.recv_results_rows'], native='contracts.native.c39:replay')
+def two_encrypted_columns(vc):
+    """a ROWS result with TWO encrypted columns of different CQL types (int `secret`, blob `token`; each with its own key) and a plain column between them:
+    ensures every non-null cell is decrypted under ITS OWN column description and decoded with that column's type (never the other column's), for values and nulls"""
+    from cassandra import protocol as P
+    v, w = vc.int('secret_value'), vc.int('plain_value')
+    tok = vc.bytes('token_value')
+    vc.assume(sym.and_(cser.in_signed_range(v, 4), cser.in_signed_range(w, 4), tok.length() >= 1, tok.length() <= 64))
+    kinds = [vc.choice('secret', ['value', 'null']), vc.choice('token', ['value', 'null'])]
+    pol = _Policy(vc, ['secret', 'token'])
+    pol.types = {'secret': _IntCodec, 'token': _Blob}
+    c_secret = pol.encrypt(None, cser.be_signed(v, 4)) if kinds[0] == 'value' else None
+    c_token = pol.encrypt(None, tok) if kinds[1] == 'value' else None
+    pol.calls[:] = []
+    meta = cat(s_int(1), s_int(3), s_string('ks'), s_string('tb'), s_string('secret'), s_short(0x03), s_string('plain'), s_short(0x09), s_string('token'), s_short(0x03))
+    rows = cat(s_int(1), s_bytes(c_secret), s_bytes(cser.be_signed(w, 4)), s_bytes(c_token))
+    f = MBytesIO(cat(meta, rows), 0)
+    msg = vc.obj(P.ResultMessage, kind=2)
+    k, r = vc.call_catch(PR + 'ResultMessage.recv_results_rows', msg, f, 4, {}, None, pol)
+    vc.check('post/decodes', k == 'ok')
+    if k != 'ok':
+        return
+    got = get_attr(vc.ctx, msg, 'parsed_rows')
+    ok = isinstance(got, list) and len(got) == 1 and isinstance(got[0], tuple) and len(got[0]) == 3
+    vc.check('post/one-row-of-three-values', ok)
+    if not ok:
+        return
+    vc.check('secret/decoded-as-its-own-int', (got[0][0] is None) if kinds[0] == 'null' else (got[0][0] is not None and sym.and_(got[0][0] == v)))
+    vc.check('token/decoded-as-its-own-blob', (got[0][2] is None) if kinds[1] == 'null' else (isinstance(got[0][2], (bytes, SBytes)) and sym.lift(got[0][2]) == tok))
+    vc.check('plain/decoded-normally', sym.and_(got[0][1] == w))
+    under = getattr(pol, 'decrypted_under', [])
+    want = ([('secret', c_secret)] if c_secret is not None else []) + ([('token', c_token)] if c_token is not None else [])
+    vc.check('policy/each-cell-decrypted-under-its-own-column', len(under) == len(want) and all(u[0] == x[0] and u[1].t.eq(x[1].t) for u, x in zip(sorted(under, key=lambda t: t[0]), sorted(want, key=lambda t: t[0]))))
